@@ -97,6 +97,11 @@ pub fn space(thorough: bool) -> Vec<Prog> {
         out.push(build(vec![s0.clone(), s1.clone()], vec![("vs_a".into(), vec![Some(0)]), ("vs_b".into(), vec![Some(0)])], format!("entry|shared-struct|{i}")));
         out.push(build(vec![s0.clone(), s1.clone()], vec![("vs_a".into(), vec![Some(0)]), ("vs_b".into(), vec![Some(1)])], format!("entry|two-entries|{i}")));
         out.push(build(vec![s0.clone(), s1.clone()], vec![("vs_a".into(), vec![Some(1), Some(0)]), ("vs_b".into(), vec![Some(0)]), ("vs_c".into(), vec![])], format!("entry|three-entries|{i}")));
+        // a shared struct with another struct collected between its uses
+        out.push(build(vec![s0.clone(), s1.clone()], vec![("vs_a".into(), vec![Some(0), Some(1)]), ("vs_b".into(), vec![Some(0)])], format!("entry|shared-interleaved-aba|{i}")));
+        out.push(build(vec![s0.clone(), s1.clone()], vec![("vs_a".into(), vec![Some(0)]), ("vs_b".into(), vec![Some(1)]), ("vs_c".into(), vec![Some(0)])], format!("entry|shared-interleaved-a-b-a|{i}")));
+        out.push(build(vec![s0.clone(), s1.clone()], vec![("vs_a".into(), vec![Some(1), Some(0)]), ("vs_b".into(), vec![Some(1), Some(0)])], format!("entry|shared-both-twice|{i}")));
+        out.push(build(vec![s0.clone(), s1.clone()], vec![("vs_a".into(), vec![Some(0), Some(1)]), ("vs_b".into(), vec![Some(1), Some(0)])], format!("entry|shared-both-swapped|{i}")));
     }
     out
 }
